@@ -672,6 +672,15 @@ def do_step(ctx, step, log):
 
 
 def _batch_add(ctx, b, m, image, mol, uids, t, rg, explicit):
+    mol_before = digest(mol)
+    try:
+        _batch_add_inner(ctx, b, m, image, mol, uids, t, rg, explicit)
+    finally:
+        if digest(mol) != mol_before:
+            raise Violation("parent-modified", "add_tomogram", "add_tomogram modified the Molecules object the caller passed in")
+
+
+def _batch_add_inner(ctx, b, m, image, mol, uids, t, rg, explicit):
     if explicit:
         image_id = rg.choice([rg.randrange(0, 6), 100 + rg.randrange(5) * 10])
         while image_id in m.images:
